@@ -88,6 +88,8 @@ def cases(tier, seed):
         for rep in range(nrand):
             out.append({"kind": "random", "cls": "random:" + cls, "entry": cls, "maxd": maxd, "idx": idx, "seed": seed})
             idx += 1
+    for k, cls in enumerate(["gauss", "int", "pure_imag", "sparse", "single_axis", "mixed_mag"] * (2 if tier == "quick" else 10)):
+        out.append({"kind": "alias", "cls": "alias_forms", "entry": cls, "idx": k, "seed": seed})
     for k, cls in enumerate(["gauss", "sparse", "int", "sparse_dense_pattern", "pure_imag"] * (2 if tier == "quick" else 8)):
         out.append({"kind": "big", "cls": "big", "entry": cls, "idx": k, "seed": seed})
     for rep in range(24 if tier == "quick" else 400):
@@ -111,6 +113,8 @@ def run_case(spec, ctx, R):
         _scalar_forms(spec, ctx, R)
     elif k == "big":
         _big(spec, ctx, R)
+    elif k == "alias":
+        _alias_forms(spec, ctx, R)
     elif k == "random":
         _random(spec, ctx, R)
     elif k == "laws":
@@ -270,6 +274,43 @@ def _big(spec, ctx, R):
                 continue
             ctx.check("fro_formats", abs(v - ref), 64 * refq.EPS * max(ref, 1e-300) * math.sqrt(X.size), site=fmt + ":big", detail={"shape": list(X.shape)})
             ctx.check("fro_herm", abs(h - ref), 64 * refq.EPS * max(ref, 1e-300) * math.sqrt(X.size), site=fmt + ":big", detail={"shape": list(X.shape)})
+
+
+def _alias_forms(spec, ctx, R):
+    """Argument relations instead of data: the same object as both factors, views of one buffer with other strides (transpose,
+    reversed rows / columns), a result fed back as an operand, sparse operands built from the same dense array.  The caller's own
+    objects are handed over (no copies), and every product is compared with the definition evaluated on independent copies."""
+    U = R.utils
+    rng = gen.rng_for(spec["seed"], "c01alias", spec["idx"])
+    n = int(rng.integers(2, 7))
+    A = gen.entries(rng, spec["entry"], n, n)
+    ctx.distinct("alias", A)
+    forms = {"A@A": (A, A), "A@A.T": (A, A.T), "A.T@A": (A.T, A), "A.T@A.T": (A.T, A.T), "A@A[::-1]": (A, A[::-1]), "A@A[:,::-1]": (A, A[:, ::-1]),
+             "A@A[...]": (A, A[...]), "A[::-1]@A.T": (A[::-1], A.T), "A@swapaxes": (A, A.swapaxes(0, 1)), "A@np.transpose": (A, np.transpose(A))}
+    for lab, (X, Y) in forms.items():
+        ref_x, ref_y = np.array(X, copy=True), np.array(Y, copy=True)
+        before = refq.fa(A).copy()
+        for path, call in (("dd", lambda: U.quat_matmat(X, Y)),
+                           ("sd", lambda: U.quat_matmat(R.sparse_from_dense(X), Y)),
+                           ("ds", lambda: U.quat_matmat(X, R.sparse_from_dense(Y))),
+                           ("ss", lambda: U.quat_matmat(R.sparse_from_dense(X), R.sparse_from_dense(Y)))):
+            try:
+                C = call()
+                C = densify(C) if isinstance(C, U.SparseQuaternionMatrix) else C
+            except Exception as e:
+                ctx.check("product_T2", False, site=path + ":alias", tags=[lab], detail={"exception": repr(e), "form": lab})
+                continue
+            _t2_check(ctx, "product_T2", path + ":alias:" + lab, C, ref_x, ref_y, extra={"form": lab, "n": n})
+        ctx.check("operands_unchanged", bool(np.array_equal(refq.fa(A), before)), site="alias:" + lab)
+    ctx.hit("forms:aliased_operands")
+    # a result fed back as an operand, three times
+    P = A
+    ref = np.array(A, copy=True)
+    for k in range(3):
+        P = U.quat_matmat(P, A)
+        ref = refq.matmul(ref, np.array(A, copy=True))
+    sc = max(refq.fro(ref), 1e-300)
+    ctx.check("product_T2", refq.fro(P - ref) / sc, 64 * n * n * refq.EPS * 4, site="dd:result_fed_back", detail={"n": n})
 
 
 def _random(spec, ctx, R):
